@@ -130,6 +130,10 @@ func CheckErrPropagated(fn *ssa.Function, call ssa.CallInstruction) (problems []
 					if aliases[x.X] {
 						aliases[x] = true
 					}
+				case *ssa.ChangeInterface:
+					if aliases[x.X] {
+						aliases[x] = true
+					}
 				case *ssa.Call:
 					// wrapping: any call that is handed the error (fmt.Errorf("%w"), errors.Join, custom wrappers) yields a derived error
 					if IsErrorType(x.Type()) {
